@@ -15,7 +15,7 @@ RULE = ("hist: histories of table operations (request default i / re-weight hand
         "sequences with non-ASCII letters at / across byte offsets 4096k, 16384k, 49152, 65536; wide-alphabet sequences of "
         "1000..5000 letters. conc: 2-4 writer goroutines re-weighting different default tables plus 0-2 reader goroutines "
         "(GetCodonTable + AddCodonTable n times on ids no writer touches); the same cases under the race detector (quick: "
-        "once; thorough: GOMAXPROCS 1/2/16 x 20) together with two control cases that MUST come back as `race`. "
+        "once; thorough: GOMAXPROCS 1/2/16 x 20) together with two harness-level control cases that MUST come back as `race`. "
         "non-trivial = history with at least one re-weighting; distinct by case text")
 EXHAUSTIVE = {"quick": True, "thorough": True}   # quick: all histories to length 3; thorough: to length 4
 SHARDS = {"quick": 4, "thorough": 16}            # cases are self-contained (start tables snapshotted / restored and reported per case)
@@ -278,8 +278,9 @@ def cases(seed, tier):
 
 def extra_runs(seed, tier, case_lines):
     conc = [l for l in case_lines if l.startswith("conc\t")]
-    # control (not in the property): two writers on the SAME id, and a reader of a table being written, race by construction
-    controls = ["conc\t1:ATGATGATG,GCTGCT,ATG\t1:TTTTTT,AAA,CCC", "conc\t2:ATGATGATG,GCTGCT,ATG,TTT,AAA\t2:@200"]
+    # control of the race runs themselves: two harness goroutines write one variable unsynchronised (independent of what
+    # poly does about sharing); it MUST come back as `race`
+    controls = ["racectl\t1", "racectl\t2"]
     if tier != "thorough":
         # quick: every concurrent case once under the race detector (a data race kills the process: reply `race`)
         yield ("race-quick", conc + controls, {"GOMAXPROCS": "4"}, True)
